@@ -119,6 +119,32 @@ UNITS += [
          optional_loops=True),
 ]
 
+UNITS += [
+    Unit(name="packer_writer_status", file=PKR, kind="block", within="impl<BE: DecryptWriteBackend> Packer<BE> {",
+         anchor="@closure:scope(|scope|",
+         block_sig="fn packer_writer_status(rx: VBlobRx, raw_packer: VRawPackerLock, finish_tx: VStatsTx, scope: &VScope)",
+         block_tail="",
+         functions=["blob::packer::Packer::new (blob thread: the status reported to Packer::finalize)"],
+         rewrites=[
+             Rw(r"rx\s*\.into_iter\(\).*?(?=\s*\.try_for_each\()", "vblob_pipeline(rx, scope)", regex=True,
+                why="ABSTRACTED: the readahead/filter/parallel_map pipeline in front of try_for_each -> the sequence of its results (threads/channels); its closures are units packer_filter_early (C07) and packer_process_blob (C08)"),
+             Rw(r"raw_packer\s*\.write\(\)\s*\.unwrap\(\)\s*\.add_raw\(data\.into\(\), ", "raw_packer.vadd_raw(data, ", regex=True, why="RwLock write guard + RawPacker::add_raw (C07 unit) -> stub: the blob is in the open pack"),
+             Rw(r"raw_packer\s*\.write\(\)\s*\.unwrap\(\)\s*\.finalize\(\)", "raw_packer.vfinalize()", regex=True, why="RwLock write guard + RawPacker::finalize (unit raw_packer_finalize) -> stub"),
+             Rw("", "RusticResult<(VBlobItem, BlobIdW, u64, Option<u32>)> ;; RusticResult<()> ;; ensures q is Ok ==> item is Ok && BLOB_ADDED(item->Ok_0.1),", kind="tryforeach",
+                why="Iterator::try_for_each (+ Result::and_then) -> their definitions; the closure keeps its body and gets a contract PROVED from it"),
+         ],
+         contract="\n    // (implicit obligation: the status sent is Ok only if every blob was added to a pack and the raw packer was finalized)\n",
+         loops={1: """
+        invariant_except_break vst is Ok,
+            forall|i: int| 0 <= i < itf.index@ ==> (#[trigger] BLOB_RESULTS()[i]) is Ok && BLOB_ADDED(BLOB_RESULTS()[i]->Ok_0.1),
+        invariant vrecv@ == BLOB_RESULTS(),
+            forall|x: RusticResult<(VBlobItem, BlobIdW, u64, Option<u32>)>| vf.requires((x,)),
+            forall|x: RusticResult<(VBlobItem, BlobIdW, u64, Option<u32>)>, q: RusticResult<()>| vf.ensures((x,), q) ==> (q is Ok ==> x is Ok && BLOB_ADDED(x->Ok_0.1)),
+        ensures vst is Ok ==> forall|i: int| 0 <= i < BLOB_RESULTS().len() ==> (#[trigger] BLOB_RESULTS()[i]) is Ok && BLOB_ADDED(BLOB_RESULTS()[i]->Ok_0.1),
+"""},
+         optional_loops=True),
+]
+
 CPY = "crates/core/src/commands/copy.rs"
 UNITS += [
     Unit(name="copy_tail", file=CPY, kind="block", within="pub(crate) fn copy<'a, R: IndexedFull, S: IndexedIds>(",
@@ -276,7 +302,7 @@ UNITS += [
 
 META = {"not_covered": [
     "the statement's quantifier (every prefix of every command's storage operations, any single failing operation): only the ordering of the straight-line parts listed under functions is decided",
-    "thread pipelines: Packer::new (chunk -> pack; its status = try_for_each(..).and_then(finalize) is not a unit), the readahead pipeline of Actor::new in front of try_for_each (abstracted to the sequence of process results; the status computed from it IS unit actor_writer_status), parallel repack in prune, TreeStreamerOnce",
+    "thread pipelines: the readahead/filter/parallel_map pipelines of Packer::new and Actor::new in front of their try_for_each (abstracted to the sequence of their results; the statuses computed from them ARE units packer_writer_status / actor_writer_status), parallel repack in prune, TreeStreamerOnce",
     "forget, config and key changes (single storage operations); of copy / merge / rewrite only the ordering tails listed under functions; instant-delete + early-delete-index of prune (the documented-unsafe pair the property excludes; every other option set is held to the order)",
     "the repack branch of prune_repository, the header re-reading loop of repair_index and Indexer::finalize itself (elided / stubs)",
 ]}
